@@ -191,7 +191,23 @@ func (r *renderer) render(v Val, t types.Type, st *State) string {
 }
 
 // replayObligation builds and runs the replay test of a failed obligation.
-func replayObligation(ctx *Context, r *OblResult, outDir string) (confirmed bool, log string) {
+// replayObligation first replays the solver's model through the generated test; where that is not possible (or does
+// not confirm) and a hand-written driver exists for the obligation, the driver is run against the real code.
+func replayObligation(ctx *Context, r *OblResult, outDir string) (bool, string) {
+	confirmed, log := replayModel(ctx, r, outDir)
+	if confirmed {
+		return true, log
+	}
+	drv := filepath.Join(verifDir, "replay", "drivers", safeName(r.ob.Name)+".go.txt")
+	src, err := os.ReadFile(drv)
+	if err != nil {
+		return false, log
+	}
+	c2, log2 := runReplayTest(ctx, r.fr.fc.PkgPath, string(src), filepath.Join(outDir, "driver"))
+	return c2, log + "\n--- hand-written driver " + drv + " ---\n" + log2
+}
+
+func replayModel(ctx *Context, r *OblResult, outDir string) (confirmed bool, log string) {
 	defer func() {
 		if x := recover(); x != nil {
 			confirmed, log = false, fmt.Sprint("inputs not renderable: ", x)
